@@ -244,8 +244,8 @@ func worker(p Property, tier Tier, seed uint64, w, n int, outPath string, runsOv
 	prog := openProgress(outPath + ".prog")
 	curProgress = prog
 	out := workerOut{Stats: map[string]int{}, Discards: map[string]int{}}
-	keys := map[uint64]struct{}{}
-	inter := map[uint64]struct{}{}
+	keys := newDistinct()
+	inter := newDistinct()
 	total := p.Runs(tier)
 	if runsOverride > 0 {
 		total = runsOverride
@@ -271,12 +271,10 @@ func worker(p Property, tier Tier, seed uint64, w, n int, outPath string, runsOv
 			return true
 		}
 		if r.Interleaving != 0 {
-			inter[r.Interleaving] = struct{}{}
+			inter.add(r.Interleaving)
 		}
 		if r.NonTrivial {
-			if _, seen := keys[r.Key]; !seen {
-				keys[r.Key] = struct{}{}
-			}
+			keys.add(r.Key)
 		}
 		if r.Sample != nil && len(out.Samples) < 3 && (r.NonTrivial || out.Evaluations > 50) {
 			out.Samples = append(out.Samples, r.Sample)
@@ -324,7 +322,7 @@ func worker(p Property, tier Tier, seed uint64, w, n int, outPath string, runsOv
 		}
 	}
 	prog.idle()
-	out.NonTrivial = len(keys)
+	out.NonTrivial = keys.estimate()
 	out.KeysFile = outPath + ".keys"
 	out.InterFile = outPath + ".inter"
 	writeSet(out.KeysFile, keys)
@@ -344,23 +342,71 @@ func skipKey(i int, enumerated bool) string {
 	return "r" + strconv.Itoa(i)
 }
 
-func writeSet(path string, set map[uint64]struct{}) {
-	buf := make([]byte, 0, 8*len(set))
+// distinct counts distinct 64-bit keys in bounded memory (adaptive distinct sampling): it keeps the
+// keys whose low `level` bits are zero; when more than distinctCap are held, level rises and the set
+// is purged. The count is exact while level is 0 and an unbiased estimate (held << level) after.
+// Sets from different workers merge by purging all of them to the highest level.
+type distinct struct {
+	level uint
+	m     map[uint64]struct{}
+}
+
+const distinctCap = 3 << 20
+
+func newDistinct() *distinct { return &distinct{m: map[uint64]struct{}{}} }
+
+func (d *distinct) add(k uint64) {
+	k = tape.Mix(k) // keys are hashes already; remix so that low bits are uniform whatever the hash
+	if k&(1<<d.level-1) != 0 {
+		return
+	}
+	d.m[k] = struct{}{}
+	for len(d.m) > distinctCap {
+		d.raise(d.level + 1)
+	}
+}
+
+func (d *distinct) raise(level uint) {
+	if level <= d.level {
+		return
+	}
+	d.level = level
+	for k := range d.m {
+		if k&(1<<level-1) != 0 {
+			delete(d.m, k)
+		}
+	}
+}
+
+func (d *distinct) estimate() int { return len(d.m) << d.level }
+
+func (d *distinct) exact() bool { return d.level == 0 }
+
+func writeSet(path string, d *distinct) {
+	buf := make([]byte, 8, 8+8*len(d.m))
+	binary.LittleEndian.PutUint64(buf, uint64(d.level))
 	var tmp [8]byte
-	for k := range set {
+	for k := range d.m {
 		binary.LittleEndian.PutUint64(tmp[:], k)
 		buf = append(buf, tmp[:]...)
 	}
 	os.WriteFile(path, buf, 0o644)
 }
 
-func readSet(path string, into map[uint64]struct{}) {
+func readSet(path string, into *distinct) {
 	b, err := os.ReadFile(path)
-	if err != nil {
+	if err != nil || len(b) < 8 {
 		return
 	}
-	for i := 0; i+8 <= len(b); i += 8 {
-		into[binary.LittleEndian.Uint64(b[i:])] = struct{}{}
+	into.raise(uint(binary.LittleEndian.Uint64(b)))
+	mask := uint64(1)<<into.level - 1
+	for i := 8; i+8 <= len(b); i += 8 {
+		if k := binary.LittleEndian.Uint64(b[i:]); k&mask == 0 {
+			into.m[k] = struct{}{}
+		}
+	}
+	for len(into.m) > distinctCap {
+		into.raise(into.level + 1)
 	}
 }
 
@@ -546,8 +592,8 @@ func Check(p Property, tier Tier, seed uint64, workers int, runsOverride int) in
 
 	// 3. merge
 	agg := workerOut{Stats: map[string]int{}, Discards: map[string]int{}}
-	keys := map[uint64]struct{}{}
-	inter := map[uint64]struct{}{}
+	keys := newDistinct()
+	inter := newDistinct()
 	for _, sl := range slots {
 		b, err := os.ReadFile(sl.out)
 		if err != nil {
@@ -600,7 +646,8 @@ func Check(p Property, tier Tier, seed uint64, workers int, runsOverride int) in
 	}
 	cov := map[string]any{
 		"evaluations":             agg.Evaluations,
-		"distinct_nontrivial":     len(keys),
+		"distinct_nontrivial":     keys.estimate(),
+		"distinct_counting":       map[bool]string{true: "exact", false: fmt.Sprintf("estimated by distinct sampling (1 key in %d kept; bounded memory)", 1<<keys.level)}[keys.exact()],
 		"rule":                    p.Rule(),
 		"samples":                 agg.Samples,
 		"exhaustive":              exhaustive,
@@ -610,7 +657,7 @@ func Check(p Property, tier Tier, seed uint64, workers int, runsOverride int) in
 		"simulated_instructions":  agg.Instructions,
 		"simulated_time_note":     "calc has no clock; simulated time is logical: statements submitted and VM instructions executed",
 		"fault_counts_and_probes": sortedStats(agg.Stats),
-		"distinct_interleavings":  len(inter),
+		"distinct_interleavings":  inter.estimate(),
 		"interleaving_measure":    "distinct hashes of the per-run sequence of executing-context ids (context-switch trace) seen by the step hook",
 		"discarded_runs":          agg.Discards,
 		"discarded_total":         discarded,
@@ -637,7 +684,7 @@ func Check(p Property, tier Tier, seed uint64, workers int, runsOverride int) in
 	}
 
 	fmt.Fprintf(Stdout, "evaluations=%d distinct_nontrivial=%d interleavings=%d discarded=%d statements=%d instructions=%d wall=%.1fs digest=%016x-%016x\n",
-		agg.Evaluations, len(keys), len(inter), discarded, agg.Statements, agg.Instructions, wall, agg.TraceXor, agg.TraceSum)
+		agg.Evaluations, keys.estimate(), inter.estimate(), discarded, agg.Statements, agg.Instructions, wall, agg.TraceXor, agg.TraceSum)
 	for _, kv := range sortedStats(agg.Stats) {
 		fmt.Fprintf(Stdout, "  %s\n", kv)
 	}
